@@ -437,7 +437,7 @@ Proof.
 Qed.
 
 Lemma keeps_fire_order_before s r t : keeps s (fst (fire_order_before s r t)).
-Proof. apply (fire_order_before_pres (keeps s) (F_fail s) (F_emit s) (F_spent s)). apply keeps_refl. Qed.
+Proof. apply (fire_order_before_pres (keeps s) (fail_any _ (F_fail s)) (F_emit s) (F_spent s)). apply keeps_refl. Qed.
 
 
 Lemma adds_weaken_failed X T X' T' s s' : adds X T s s' -> ok s' = false -> adds X' T' s s'.
@@ -544,7 +544,7 @@ Qed.
 (* ---------------- the whole run ---------------- *)
 Lemma keeps_handle_request s r : keeps s (handle_request s r).
 Proof.
-  apply (handle_request_pres (keeps s) (F_fail s) (F_emit s) (F_callback s) (F_accept_order s) (F_accept_cancel s) (F_round s)
+  apply (handle_request_pres (keeps s) (fail_any _ (F_fail s)) (fail_exec_any _ (F_fail s)) (F_emit s) (F_callback s) (F_accept_order s) (F_accept_cancel s) (F_round s)
            (F_fills s) (F_spent s) (F_halt_after s)).
   apply keeps_refl.
 Qed.
@@ -659,7 +659,7 @@ Proof.
   intros N s0 s O.
   assert (I0 : mids s0 = map mc_id (c_markets c)) by (unfold s0, mids, init_sim; cbn; rewrite map_map; reflexivity).
   assert (H : NoDup (mids s) /\ good s0 s).
-  { apply (run_upk (fun s => NoDup (mids s) /\ good s0 s) (G_fail s0) (G_probe_u s0) (G_step s0) (G_boundary s0) (G_tick_all s0)
+  { apply (run_upk (fun s => NoDup (mids s) /\ good s0 s) (fail_any _ (G_fail s0)) (G_probe_u s0) (G_step s0) (G_boundary s0) (G_tick_all s0)
              (G_pop_perm s0) (G_pop_draw s0) (G_consult s0) (G_halt_before s0) (G_shock s0) (G_set_cur s0) (G_begin_iteration s0)
              (G_request s0)).
     split; [change (NoDup (mids s0)); rewrite I0; exact N|apply good_refl]. }
